@@ -7,7 +7,7 @@ CLAIMED = {
  "C02": ("Bellman step of search_min_node / insert_node / insert_eos from an arbitrary boundary state (inductive), whole lattices of concrete shape up to N=4 compared with a reference recurrence and with an arbitrary competing chain picked by the solver, and the reported path's accumulated total_cost",
          "matrix connector instantiation; |prefix cost| < 2^28; boundary of <=4 nodes; shapes listed in the evidence"),
  "C03": ("gen_unk_words against a reference written from the statement for every category layout/invoke/group/length/max_grouping_len at concrete (n,start) up to n=4; compute_groupable; char_info lookup for every scalar; lexicon prefix search on generator-built tries with symbolic input",
-         "char.def text parsing (from_reader/encode_cate_info: last range line wins) is outside the claim: 65536-entry table fill per call"),
+         "char.def: CharProperty::from_reader is not executed symbolically (text parsing does not fold); instead the table it builds natively at check time for one 11-line char.def is checked by the solver against the lines of the file for every Unicode scalar (last covering line wins, inclusive bounds, DEFAULT otherwise); known finding: supplementary-plane characters take U+0000's entry"),
  "C04": ("concrete operation histories (tokenize twice, long-then-short, short-then-long, empty between, reset twice) on one worker vs a fresh worker with symbolic costs; inductive steps for Lattice::reset, Worker::reset_sentence and tokenize from arbitrary prior state",
          "schedules (threads) are not explored: Kani does not model concurrency; Send+Sync of Tokenizer/Dictionary is a compile-time bound in the harness crate, trusted not explored"),
  "C05": ("Dictionary::write into an element-wise writer then Dictionary::read of those bytes, for dictionaries of concrete structure (matrix / matrix+user+mapper / raw connector; dual in the thorough tier) with symbolic numeric contents: reported byte count = bytes emitted, and every field read back (word and unknown parameters, matrix cells, character infos, mapper vectors, 8-lane feature rows, scorer arrays, trie bytes, postings) equals the field written",
@@ -16,11 +16,11 @@ CLAIMED = {
          "matrix connector only (raw/dual mapping: thorough tier); user lexicon loaded after mapping and write/read round trip not reached"),
  "C07": ("XOR double-array lookup (retrieve_cost) against its definition for arbitrary arrays and every 31-bit key, 8-lane accumulation, RawConnector::cost and DualConnector::cost arithmetic on parts-built connectors with symbolic feature rows / class maps / matrix cells",
          "construction from bigram.right/left/cost text (from_readers, template split, interning) is outside the claim; ScorerBuilder::build on concrete key sets is attempted in the thorough tier (BTreeMap iteration does not fold: non-core); AVX2 path not modelled by Kani"),
- "C08": ("system {a} + user {ab} vs system {a,ab} with shared symbolic parameters: same optimal cost, same candidate counts, the user word offered as a user-lexicon candidate with the same prefix minimum, system words still available; reset_user_lexicon_from_reader(None) removes every user candidate",
-         "loading/replacing a user lexicon from CSV text is outside the claim (WordMapBuilder's BTreeMap and the crawdad builder do not fold under CBMC); id verification is covered under C10 (c10_verify_ids)"),
- "C09": ("any 21-byte header different from the current magic followed by a valid body is rejected (all header bytes symbolic); the complete image loads; hand-written decoders on symbolic bytes: U31 and U31x8 reject exactly the out-of-range lanes and every truncated input, the Scorer decoder rejects inconsistent array lengths; every cut point inside the header and inside the trie byte array of a whole image (symbolic cut point per 16-byte window); thorough tier: every strict prefix of a Scorer image with symbolic contents",
+ "C08": ("system {a} + user {ab} vs system {a,ab} with shared symbolic parameters: same optimal cost, same candidate counts, the user word offered as a user-lexicon candidate with the same prefix minimum, system words still available; reset_user_lexicon_from_reader(None) removes every user candidate; on an id-mapped dictionary the real reset_user_lexicon_from_reader/parse_csv translate the first, the replacing and the reloaded-after-clear user lexicon with the retained mapping (concrete one-row CSVs, symbolic mapping)",
+         "the double-array builder behind Lexicon::from_entries does not fold under CBMC: in the CSV instances it is stubbed by a trie the current code built natively for the same surface; CSV rows are concrete (parse_csv folds on concrete rows only); id verification is covered under C10 (c10_verify_ids)"),
+ "C09": ("any 21-byte header different from the current magic followed by a valid body is rejected (all header bytes symbolic; also with only the 4 version bytes or only the terminator byte symbolic, which stay decidable when header handling grows); the complete image loads; hand-written decoders on symbolic bytes: U31 and U31x8 reject exactly the out-of-range lanes and every truncated input, the Scorer decoder rejects inconsistent array lengths; every cut point inside the header and inside the trie byte array of a whole image (symbolic cut point per 16-byte window); thorough tier: every strict prefix of a Scorer image with symbolic contents",
          "images of 340-700 bytes with empty strings; cut points that fall inside a scalar or length field of the bincode body are NOT decided (the symbolic read outcome is merged into the decoded value and nothing downstream folds; two such windows stay registered as non-core to document the no-verdict) - there the claim rests on the decoders propagating read errors, checked at codec level (U31, U31x8, Scorer truncation); reader = element-wise CutReader instantiation of the generic Read parameter; stubs: unty::type_equal, alloc::fmt::format"),
- "C10": ("numeric/packing kernels: CharInfo::new bit packing for all inputs; mapping validation (see C06); accepted-dictionary-implies-safe-use through the C01 pipeline instances",
+ "C10": ("numeric/packing kernels: CharInfo::new bit packing for all inputs; matrix index arithmetic; Lexicon/UnkHandler::verify accept exactly in-range ids; composing two arbitrary valid mappings of a non-square connector stays in range and is 'first, then second' (mapping validation itself: see C06); accepted-dictionary-implies-safe-use through the C01 pipeline instances",
          "totality over arbitrary file bytes is not decided (parsers over >5 arbitrary bytes are out of reach); listed in DESIGN"),
  "C12": ("pairs of re-spaced sentences tokenized in one query by two workers of one tokenizer with symbolic costs: same tokens, ids, total costs; ignore_space rejected without SPACE category",
          "sentences of N<=4, dictionaries meeting the stated precondition, matrix connector"),
